@@ -52,6 +52,10 @@ Definition steps_of (t : term) : list pstep := map step_of (gl t).
 Definition run_C11 (i : term) : term :=
   let op := gs (gn i 0) in
   if String.eqb op "e2e" then run_e2e i else
+  if String.eqb op "legacy" then
+    let t := gn i 3 in
+    let '(d, k) := legacy_frame_info (gs (gn t 0)) (gs (gn t 1)) (gs (gn t 2)) (gs (gn t 3)) (gss (gn i 2)) in
+    TL [TS "ok"; TS d; TS k] else
   if String.eqb op "simplify" then TS (simplify_func (gs (gn i 1)))
   else
     let p := profile_of (gn i 1) in
@@ -94,6 +98,9 @@ Definition ru_keep (p : profile) : option string :=
 Definition spec_C11 (i o : term) : bool :=
   let op := gs (gn i 0) in
   if String.eqb op "e2e" then existsb (Z.eqb 900) (cls_e2e i) || spec_e2e i o else
+  if String.eqb op "legacy" then
+    (* a legacy profile always carries a built-in drop expression, the one its sample types prescribe *)
+    term_eqb o (run_C11 i) && negb (String.eqb (gs (gn o 1)) "") else
   if String.eqb op "simplify" then
     (* the simplified name is a prefix of the name without its leading dot *)
     (* ... and no argument list is left: scanning the result again finds no bare "(" to cut at *)
@@ -132,6 +139,7 @@ Definition spec_C11 (i o : term) : bool :=
 Definition cls_C11 (i : term) : list Z :=
   let op := gs (gn i 0) in
   if String.eqb op "e2e" then cls_e2e i else
+  if String.eqb op "legacy" then [] else
   if String.eqb op "simplify" then []
   else
     let p := profile_of (gn i 1) in
